@@ -302,8 +302,9 @@ def loaded_delta(e, saved, limit=8):
             what = "data-cell-error-object-lost"
           else:
             plain = ("list", "tuple", "str", "int", "float", "bool", "NoneType")
-            if _is_formula(e, t, cid) and not (kx in plain and ky in plain):
-              continue       # rich objects in formula cells (RecordList, ...) are recomputed anyway
+            if _is_formula(e, t, cid) and (kx == ky or not (kx in plain and ky in plain)):
+              continue       # formula cells are recomputed anyway: only a change of a plain Python
+                             # type in a stored formula value is a cause, not a consequence
             what = "%s:%s->%s" % (ctype, kx, ky)
             if kx == ky: what += "(value)"
           out.add(what)
